@@ -81,7 +81,7 @@ def judge_success_late(sc, lines_in, impl_out):
 class C12(PropBase):
     id = 'C12'
     lean_modules = ['Isotp.Props.C12']
-    theorems = []
+    theorems = []  # filled as proofs land
     rule = ('queues of {empty, single-frame, multi-frame, generator-backed (exact/short/long), rate-limited} payloads x peers {cooperative, '
             'Overflow, silent, Wait, late} x stop_sending()/reset() at random points x blocking_send on (send_timeout=0) / off, followed by a '
             'watchdog phase: every accepted request has exactly one outcome, success only once its last frame has been produced, stop/reset give '
